@@ -168,7 +168,7 @@ func (c *c43run) compare(v cadence.Value, origin, findingKey string) {
 		c.sum.Fail(k("both-type-id:"+origin), what, replay)
 	})
 	// the models: JSON encoder/decoder model and CCF encoder model on the same value
-	if c.modelCases < 2500 {
+	if c.modelCases < 1200 {
 		c.modelCases++
 		c.json.decodeCaseOf(xv, jb, mustTree(jb), origin+":c43", "")
 		if t, err := parseCBOR(cb); err == nil {
@@ -223,7 +223,7 @@ func c43(sum *lib.Summary) {
 	g.ForCCF = true
 	n := 150
 	if thorough() {
-		n = 6000
+		n = 3000
 	}
 	for i := 0; i < n; i++ {
 		c.compare(g.Value(), "generated", "")
